@@ -269,7 +269,7 @@ def run_shard(ctx):
         p = root.joinpath(*parts)
         try:
             p.parent.mkdir(parents=True, exist_ok=True)
-            p.write_text("@sealed\n")
+            p.write_text(rng.choice(["@sealed\n", "@sealed\n", "uint8 x\n@sealed\n", "uint8 x\n@extent 64\n"]))
         except (OSError, ValueError):
             ctx.cls("name-not-creatable")
             shutil.rmtree(base, ignore_errors=True)
